@@ -708,13 +708,22 @@ class Node(object):
                     to_delete.append(srvr)
         else:
             to_delete = self.servers[::1]  # copy
-            for s in self.servers:
+            for s in to_delete:
                 s.shift_end = self.next_event_date
+                if preemption == 'reroute':
+                    # re-routed customers can come straight back to this node: idle servers
+                    # leave first, the others as soon as their customer has been re-routed
+                    if s.cust is False:
+                        self.kill_server(s)
+                    else:
+                        s.offduty = True
+            for s in to_delete:
                 if s.cust is not False:
                     self.interrupt_service(s.cust)
             self.sort_interrupted_individuals()
         for obs in to_delete:
-            self.kill_server(obs)
+            if obs in self.servers:
+                self.kill_server(obs)
 
     def interrupt_service(self, individual):
         """
